@@ -114,6 +114,7 @@ class Ctx:
         self.rootargs = []  # (arg term, nn flag, degree) of every root taken
         self.rootargs_raw = []  # same with the unsimplified argument (keeps the code's top-level addends)
         self.atom_lemmas = []
+        self.nonzero_ids = {}
         self.unit_atoms = {}  # ast id -> var for sign variables s with s*s == 1 (exponents reduce mod 2)
         self.abs_terms = []  # (If(t >= 0, t, -t), t) for every |t| built on this path
         self._abs_nn_cache = {}
@@ -150,6 +151,11 @@ class Ctx:
         if group in ("def", "pre"):
             self.solver.add(f)
 
+    def assume_nonzero(self, t):
+        """precondition t != 0, also remembered syntactically so that later `t == 0` tests fold to False without a fork"""
+        self.nonzero_ids[t.get_id()] = t
+        self.add_fact("pre", t != 0)
+
     def assume(self, f):
         """precondition: restricts the quantifier of every later obligation and branch"""
         if isinstance(f, SB):
@@ -164,9 +170,22 @@ class Ctx:
     def _check(self, solver, *assumptions, timeout_ms=None):
         if self.deadline is not None and time.time() > self.deadline:
             raise BudgetExceeded("config deadline")
-        solver.set("timeout", int(timeout_ms or self.branch_timeout_ms))
+        tmo = int(timeout_ms or self.branch_timeout_ms)
+        solver.set("timeout", tmo)
         t0 = time.time()
-        r = str(solver.check(*assumptions))
+        # z3's own timeout is only polled at some points of nlsat and can overrun by minutes: back it with an interrupt
+        import threading
+
+        wd = threading.Timer(tmo / 1000.0 * 1.25 + 1.0, solver.ctx.interrupt)
+        wd.daemon = True
+        wd.start()
+        try:
+            try:
+                r = str(solver.check(*assumptions))
+            except z3.Z3Exception:
+                r = "unknown"
+        finally:
+            wd.cancel()
         self.stats.add(r, time.time() - t0)
         return r
 
@@ -411,6 +430,16 @@ class Ctx:
         return out
 
 
+def _zero_const(o):
+    if isinstance(o, SR):
+        return o.c is not None and o.c == 0
+    if isinstance(o, (bool, np.bool_)):
+        return False
+    if isinstance(o, (int, float, np.integer, np.floating, Fraction)):
+        return o == 0
+    return False
+
+
 def _is_zero_value(v):
     """zero test of a z3 rational value without converting a (possibly huge) numerator to a Python int"""
     return v.numerator().as_string().lstrip("-") == "0"
@@ -579,15 +608,17 @@ class SR:
     symbolic denominator is recorded in CTX.dens and the obligations are stated under the
     definedness assumption `den != 0` (Ctx.assume_defined), which is reported in the evidence."""
 
-    __slots__ = ("_t", "c", "nn", "sq", "ab", "sos", "pf")
+    __slots__ = ("_t", "c", "nn", "sq", "ab", "sos", "pf", "pos", "abo")
 
     def __init__(self, t=None, c=None, nn=False, sq=None, ab=None, sos=None, pf=None):
         self._t = t
         self.c = c
+        self.pos = bool(c is not None and c > 0)  # syntactically strictly positive (constants, max(x, positive constant))
         self.sq = sq  # (arg, degree) when this is a root atom
         self.ab = ab  # inner term when this is |inner|
         self.sos = sos  # tuple of terms whose squares sum to this value (syntactic sum of squares)
         self.pf = pf
+        self.abo = None  # the SR (with its product form) this value is the absolute value of
         self.nn = bool(nn or sq is not None or ab is not None or (c is not None and c >= 0))
 
     @property
@@ -682,7 +713,7 @@ class SR:
         if self.c is not None and self.c == 1:
             return b
         if self.ab is not None and b.ab is not None and self.ab.eq(b.ab):
-            x = SR(self.ab)
+            x = self.abo if self.abo is not None else SR(self.ab)
             return _pf_mul(x, x, 1)
         return _pf_mul(self, b, 1)
 
@@ -703,10 +734,12 @@ class SR:
             if self.c is not None:
                 return const(self.c / b.c)
             return self * const(1 / b.c)
-        # symbolic denominator: definedness obligation for each factor
-        for f in b._pf()[1]:
-            if f[1] > 0:
-                CTX.dens.append(f[2])
+        # symbolic denominator: definedness obligation for each factor (none for a syntactically positive value such as
+        # clip(x, a_min=eps): `den != 0` over merged If-terms is what makes models of multiplicative-update paths hard to find)
+        if not b.pos:
+            for f in b._pf()[1]:
+                if f[1] > 0:
+                    CTX.dens.append(f[2])
         if self.c is not None and self.c == 0:
             return const(0)
         if not CTX.assume_defined:
@@ -768,7 +801,9 @@ class SR:
         tt = z3.simplify(self.t)
         it = z3.If(tt >= 0, tt, z3.simplify(-tt))
         CTX.abs_terms.append((it, tt))
-        return SR(it, ab=tt)
+        r = SR(it, ab=tt)
+        r.abo = self
+        return r
 
     def conjugate(self):
         return self
@@ -823,10 +858,17 @@ class SR:
             return True
         return self._cmp(o, lambda a, b: a >= b)
 
+    def _known_nonzero(self, o):
+        return self.c is None and CTX is not None and CTX.nonzero_ids and _zero_const(o) and self.t.get_id() in CTX.nonzero_ids
+
     def __eq__(self, o):
+        if self._known_nonzero(o):
+            return False  # asserted non-zero by a harness precondition (Ctx.assume_nonzero)
         return self._cmp(o, lambda a, b: a == b)
 
     def __ne__(self, o):
+        if self._known_nonzero(o):
+            return True
         return self._cmp(o, lambda a, b: a != b)
 
     __hash__ = None
@@ -1012,6 +1054,8 @@ def smax(a, b):
     r = ite(a >= b, a, b)
     if isinstance(r, SR) and (a.nn or b.nn):
         r.nn = True
+    if isinstance(r, SR) and ((a.c is not None and a.c > 0) or (b.c is not None and b.c > 0)) and r.c is None:
+        r.pos = True  # max(x, positive constant) > 0
     return r
 
 
